@@ -78,4 +78,14 @@ def lt : Bytes → Bytes → Bool
 def le (a b : Bytes) : Bool := !lt b a
 
 end Bytes
+
+/-- a Boolean predicate on bytes holds of every byte if it holds of the 256 of them
+    (lets `decide` settle finite byte-class facts) -/
+theorem forall_u8 (P : UInt8 → Bool) (h : (List.range 256).all (fun n => P (UInt8.ofNat n)) = true) :
+    ∀ c, P c = true := by
+  intro c
+  rw [List.all_eq_true] at h
+  have := h c.toNat (by simp [List.mem_range]; exact c.toNat_lt)
+  simpa using this
+
 end GFS
